@@ -776,6 +776,17 @@ def needed_rows(case, info):
         D = p["D"]
         if D and D > 0:
             ds.update(divisors(D))
+        # a resolution change may land on the planning tick of a segment the generator planned at another resolution (the
+        # oracle abstains there, the model plans D = round(duration x the resolution in force)): hand the model the cosine
+        # rows of every D the segment can get, else its table lookup falls back to a default and model and code "differ"
+        # (false alarm of the thorough tier at seed 3)
+        for ch in case.get("changes", []):
+            try:
+                Dn = int(round(float(p["dur_eff"]) * ch["N"]))
+            except (TypeError, ValueError):
+                continue
+            if 0 < Dn <= 20000:
+                ds.update(divisors(Dn))
     return ds
 
 
